@@ -1,17 +1,18 @@
 (* Props/C14.v -- property C14: content streams survive encode and decode.
    Statements only; proofs live in Proofs/{LexProofs,LitStringProofs,RealProofs,ObjectRtProofs,
-   ContentProofs}.v.  Model: Model/Writer.v (Content::encode, Writer::write_object) and
+   ContentProofs,ParserSoundProofs,DecodeRtProofs}.v.  Model: Model/Writer.v (Content::encode, Writer::write_object) and
    Model/Parser.v (Content::decode: operation / operand / operator / inline_image / content). *)
 From LV Require Import Base.Bytes Base.Sx Model.Obj Model.Writer Model.Parser Gen.Lex
-  Proofs.LexProofs Proofs.LitStringProofs Proofs.RealProofs Proofs.ObjectRtProofs Proofs.ContentProofs.
+  Proofs.LexProofs Proofs.LitStringProofs Proofs.RealProofs Proofs.ObjectRtProofs Proofs.ContentProofs
+  Proofs.ParserSoundProofs Proofs.DecodeRtProofs.
 
 (* ---------------------------------------------------------------------------------------------
    (1) The main theorem.  For every sequence of operations in the domain of the property
    ([op_dom]: operator non-empty over the parser's alphabet; operands direct objects other than
    references -- i64 integers, finite reals, any bytes in names / strings / keys, unique
    dictionary keys, arbitrary nesting -- or an inline image whose dictionary implies its data
-   length) and outside the two known classes ([known_class]: findings C14-keyword-operator and
-   C14-deep-nesting), decoding the encoded bytes returns the same operators with the operands in
+   length; the operator is not one of the keywords null / true / false, which are operands, nor a
+   lone BI) and outside the known class ([known_class]: finding C14-deep-nesting), decoding the encoded bytes returns the same operators with the operands in
    normal form ([norm_op]: an integral real below 2^63 comes back as the integer of the same value,
    an integral real from 2^63 on as the same digits followed by ".0", everything else
    unchanged; an inline image comes back with its Length entry set). *)
@@ -38,10 +39,33 @@ Theorem C14_example :
           mkop "f*" [] ].
 Proof. split; [exact ex_ops_dom|exact ex_ops_result]. Qed.
 
-(* (2) The inline-image clause (second sentence of the property).
-   (a) Everything the inline-image parser returns has the image-specific part of the domain:
-   operator BI, one stream operand with unique keys, a dictionary that implies exactly the data
-   length, data not beginning with content white space, Length already set. *)
+(* ---------------------------------------------------------------------------------------------
+   (2) The second sentence of the property: content DECODED from any byte string, encoded again,
+   decodes to the same operations.
+
+   (a) Soundness of the parser model, for EVERY input: what decode returns are operations whose
+   operator is over the parser's alphabet and whose operands are parsed values ([pv]: i64 integers,
+   reals in the source syntax of the real parser, unique keys, u32/u16 references inside containers,
+   no stream, not a reference, nested within MAX_BRACKET levels), or one inline image whose
+   dictionary has unique keys, parsed values, implies exactly the data length and has Length set. *)
+Theorem C14_decoded_sound :
+  forall bs ops, decode_content bs = DecOk ops -> Forall op_dec ops.
+Proof. exact decoded_ops_sound. Qed.
+
+(* the same for the object parser shared with the document reader (for C01) *)
+Theorem C14_parsed_value_sound :
+  (forall f depth s o r, direct_objects_at f depth s = POk o r -> pv o /\ nest o <= depth) /\
+  (forall s o, parse_direct_object s = Some o -> pv o /\ nest o <= MAX_DEPTH) /\
+  (forall fuel s o r, operand fuel s = POk o r -> pv o /\ ref_ok false o /\ nest o <= MAX_DEPTH).
+Proof.
+  split; [exact direct_objects_at_sound|]. split; [exact parse_direct_object_sound|exact operand_sound].
+Qed.
+
+(* a parsed value is a fixed point of the normal form: what a second cycle can change is only the
+   SPELLING of reals (the parser keeps "+1.50", Rust holds the f32 and prints "1.5") *)
+Theorem C14_parsed_value_normal : forall o, pv o -> norm_obj o = o.
+Proof. exact pv_norm_fixed. Qed.
+
 Theorem C14_inline_image_decoded :
   forall fuel s ops op r,
     inline_image fuel s = POk (ops, op) r ->
@@ -51,19 +75,65 @@ Theorem C14_inline_image_decoded :
                 dict_get d K_Length = Some (OInt (Z.of_nat (length c))).
 Proof. exact inline_image_sound. Qed.
 
-(* (b) Hence a decoded inline image is encoded to bytes that decode to exactly the same operation.
-   PARTIAL with respect to the property text: the three hypotheses on the dictionary VALUES
-   (well-formed, in normal form, nesting within the limit) are what the object parser returns but
-   are assumed here, not derived: missing is the soundness direction of the parser model for
-   values and a model of f32 re-printing for reals spelled non-canonically in the source (the model
-   keeps "+1.50" as text, Rust re-prints "1.5"; DESIGN 3, assumption c).  The correspondence run
-   evaluates the literal clause (decode, encode, decode) on the implementation for every dec case. *)
-Theorem C14_inline_image_reencode_partial :
-  forall fuel s d c r,
-    inline_image fuel s = POk ([OStream d c], bs "BI") r ->
-    Forall (fun kv => obj_wf (snd kv)) d -> norm_dict d = d -> nest (OStream d c) <= MAX_DEPTH ->
-    decode_content (encode_content [mkop "BI" [OStream d c]]) = DecOk [mkop "BI" [OStream d c]].
-Proof. exact decoded_image_reencodes. Qed.
+(* (b) THE SECOND SENTENCE, for ALL byte strings.  [canon] is Display o from_str on f32 (how Rust
+   re-prints a real read from an arbitrary spelling), specified by the float assumptions of DESIGN 3
+   written out in [canon_spec]: for a source spelling that does not overflow f32 the output has the
+   shape of a finite Display text, and printing it with a point and reading it again gives the same
+   text (from_str (to_string x) = x; "r.0" is the same f32 as "r").  [map (canon_op canon) ops] is
+   what Rust holds after decoding bs; it is encoded; the bytes decode to ops2; and what Rust then holds
+   is the same operations up to the difference the property allows (an integral real below 2^63 is an
+   integer: [intnorm_op]).  Outside ([known_dec], decidable on the decoded operations): a real whose
+   spelling overflows f32 (OPEN finding C14-real-overflow), an operator that is exactly null / true /
+   false or a lone BI (returned only for a malformed token such as "null1"), and inline-image data longer
+   than isize::MAX (impossible in Rust). *)
+Theorem C14_decode_encode_decode :
+  forall canon, canon_spec canon ->
+  forall bs ops, decode_content bs = DecOk ops -> Forall (fun op => known_dec op = false) ops ->
+    exists ops2,
+      decode_content (encode_content (map (canon_op canon) ops)) = DecOk ops2 /\
+      map (canon_op canon) ops2 = map intnorm_op (map (canon_op canon) ops).
+Proof. exact decode_encode_decode. Qed.
+
+(* the float assumptions are consistent: exact decimal canonicalisation (drop "+", supply the leading
+   zero, drop trailing zeros of the fraction) satisfies them *)
+Theorem C14_canon_spec_consistent : canon_spec canon_exact.
+Proof. exact canon_exact_spec. Qed.
+
+(* non-vacuity: a stream with a comment, reals in five non-canonical spellings, an operator beginning
+   with a keyword, nested containers, an inline image with long keys, CR LF after ID, data beginning
+   with a space and containing "EI": it decodes, no operation is in the excluded class; the values
+   Rust holds and the result of the second decode are written out *)
+Theorem C14_decode_encode_decode_example :
+  (decode_content ex_stream = DecOk ex_decoded /\ forallb (fun op => negb (known_dec op)) ex_decoded = true) /\
+  map (canon_op canon_exact) ex_decoded =
+  [ mkop "cm" [OReal (bs "1.5"); OReal (bs "0.5"); OReal (bs "5"); OReal (bs "-0"); OReal (bs "00.25")];
+    mkop "Tf" [OName (bs "F1"); OReal (bs "12")];
+    mkop "nullify" [OArr [OStr (bs "a)b") false; OReal (bs "-7"); OStr [x40] true; OArr [ORef 1 0]]];
+    mkop "BI" [OStream [(bs "Width", OInt 2); (bs "Height", OInt 1); (bs "ColorSpace", OName (bs "RGB"));
+                        (bs "BitsPerComponent", OInt 8); (bs "Length", OInt 6)] (bs " EI EI")];
+    mkop "Q" [] ] /\
+  decode_content (encode_content (map (canon_op canon_exact) ex_decoded)) =
+  DecOk [ mkop "cm" [OReal (bs "1.5"); OReal (bs "0.5"); OInt 5; OInt 0; OReal (bs "00.25")];
+          mkop "Tf" [OName (bs "F1"); OInt 12];
+          mkop "nullify" [OArr [OStr (bs "a)b") false; OInt (-7); OStr [x40] true; OArr [ORef 1 0]]];
+          mkop "BI" [OStream [(bs "Width", OInt 2); (bs "Height", OInt 1); (bs "ColorSpace", OName (bs "RGB"));
+                              (bs "BitsPerComponent", OInt 8); (bs "Length", OInt 6)] (bs " EI EI")];
+          mkop "Q" [] ].
+Proof. split; [exact ex_stream_decodes|exact ex_stream_second_cycle]. Qed.
+
+(* the excluded classes are real *)
+Theorem C14_real_overflow_refuted :
+  decode_content overflow_witness = DecOk [mkop "w" [OReal (bs "340282356779733661637539395458142568448.0")]] /\
+  known_dec (mkop "w" [OReal (bs "340282356779733661637539395458142568448.0")]) = true /\
+  known_dec (mkop "w" [OReal (bs "340282356779733661637539395458142568447.999")]) = false /\
+  decode_content (encode_content [mkop "w" [OReal (bs "inf")]]) = DecOk [mkop "inf" []; mkop "w" []].
+Proof. exact overflow_witness_class. Qed.
+
+Theorem C14_keyword_residual_refuted :
+  decode_content (bs "null1 x") = DecOk [mkop "null" []; mkop "x" [OInt 1]] /\
+  known_dec (mkop "null" []) = true /\
+  decode_content (encode_content [mkop "null" []; mkop "x" [OInt 1]]) = DecOk [mkop "x" [ONull; OInt 1]].
+Proof. exact kw_residual_witness. Qed.
 
 (* (c) and for any inline image of the class, within a sequence or alone (instance of C14_rt) *)
 Theorem C14_inline_image_rt :
@@ -188,8 +258,15 @@ Proof. exact nan_operand_refuted. Qed.
 
 Print Assumptions C14_rt.
 Print Assumptions C14_example.
+Print Assumptions C14_decoded_sound.
+Print Assumptions C14_parsed_value_sound.
+Print Assumptions C14_parsed_value_normal.
 Print Assumptions C14_inline_image_decoded.
-Print Assumptions C14_inline_image_reencode_partial.
+Print Assumptions C14_decode_encode_decode.
+Print Assumptions C14_canon_spec_consistent.
+Print Assumptions C14_decode_encode_decode_example.
+Print Assumptions C14_real_overflow_refuted.
+Print Assumptions C14_keyword_residual_refuted.
 Print Assumptions C14_inline_image_rt.
 Print Assumptions C14_object_rt.
 Print Assumptions C14_separator_rule.
